@@ -4,8 +4,7 @@ From UPF Require Import Base.LTS Model.Teardown Proofs.TeardownBounded.
 Import ListNotations.
 Open Scope N_scope.
 
-(* two established associations, each released and each silent past the read timeout, all interleavings *)
-Definition cfg4 : list acfg := [ACfg [1] false None; ACfg [2] false None].
-Definition ev4 : list env := [rel 0; ETimeout 0; rel 1; ETimeout 1].
+(* cfg4 / ev4 (Proofs/TeardownBounded.v): two established associations, each released and each silent past the
+   read timeout, all interleavings *)
 Lemma inst4_ok : instance_ok 1000000 cfg4 ev4 = true.
 Proof. vm_compute. reflexivity. Qed.
